@@ -18,7 +18,7 @@ import asyncio
 import contextvars
 import sys
 
-from sched_common import PROBE_UID, Mapper, Obs, Scenario, classify_engine
+from sched_common import PROBE_UID, Mapper, Obs, Scenario, U, classify_engine, un
 from sched_threads import decode_ret
 
 _CLASS_CACHE = {}
@@ -56,6 +56,7 @@ def make_class(K):
         h = getattr(self, "h", None)
         if h is None or uid is None:
             return None
+        uid = un(uid)
         return await h.callback(self, name, uid)
 
     async def before_go(self, uid=None):
@@ -138,7 +139,7 @@ class AsyncHarness:
             for kid in self.scn.nest.get(uid, []):
                 self.mapper.set_sending(a, kid)
                 try:
-                    r, exc = await sm.send("go", uid=kid), None
+                    r, exc = await sm.send("go", uid=U(kid)), None
                 except Exception as e:  # noqa: BLE001
                     r, exc = None, repr(e)
                 self.obs.nested.append((a, uid, kid, decode_ret(r), exc))
@@ -222,17 +223,23 @@ def run_schedule(scn: Scenario, devs: dict, want_where=False, timeout=20.0) -> O
     async def sender(sm, i, fut, counter):
         ACTOR.set(i)
         try:
+            first = True
             for uid in scn.progs[i]:
                 for _ in range(scn.gaps[i] if i < len(scn.gaps) else 0):
                     await asyncio.sleep(0)
+                if first and i in scn.attach:
+                    # attaching a listener while another task may be in the middle of a callback changes nothing
+                    # about who processes what
+                    sm.add_listener(type("PlainListener", (), {"helper": lambda self: None})())
+                first = False
                 h.mapper.set_sending(i, uid)
                 try:
                     if uid in scn.split:
-                        c = sm.send("go", uid=uid)     # enqueues now; the drain loop starts when awaited
+                        c = sm.send("go", uid=U(uid))     # enqueues now; the drain loop starts when awaited
                         await asyncio.sleep(0)
                         r, exc = await c, None
                     else:
-                        r, exc = await sm.send("go", uid=uid), None
+                        r, exc = await sm.send("go", uid=U(uid)), None
                 except Exception as e:  # noqa: BLE001
                     r, exc = None, repr(e)
                 h.mapper.finish(i)
@@ -273,7 +280,7 @@ def run_schedule(scn: Scenario, devs: dict, want_where=False, timeout=20.0) -> O
             obs.final_state = f"<{e!r}>"
         h.probing = True
         try:
-            r = decode_ret(await sm.send("go", uid=PROBE_UID))
+            r = decode_ret(await sm.send("go", uid=U(PROBE_UID)))
             obs.probe = (r, sm.current_state.id)
         except Exception as e:  # noqa: BLE001
             obs.probe = (f"<{e!r}>", None)
